@@ -12,6 +12,24 @@
   CPython).  `voigt_model_is_source` says the hand-written model and the translated source agree on the complete finite
   domain; the `voigt_source_*` theorems restate the clauses of the property about the source itself, so they are theorems about
   what the file says now (relative to the evaluator's semantics, which the harness tests against CPython on every run).
+
+  Beyond the finite domain — ALL integers, no `_partial` left:
+  * `voigt_source_rejects_voigt`, `voigt_source_rejects_voigt_pair`: Voigt indices, symbolic kernel evaluation (every test the source
+    makes on one symbolic integer is decided by its constructors);
+  * `voigt_source_rejects_standard_pair`, `voigt_source_standard_pair_canonical`, `voigt_source_rejects_standard`: standard pairs and
+    quadruples, `e_` / `c_` and the two `from_standard` classmethods.  `sorted((i, j))` compares two symbolic magnitudes; the kernel
+    cannot decide that, so Lemmas/VoigtSrcSort extracts the evaluator's continuation around the sort (a definitional equality
+    between two stuck terms, checked by the kernel), rewrites the sort under `i ≤ j` / `j < i` by an ordinary lemma about the
+    evaluator's insertion sort, and evaluates the rest — valid for any remaining fuel ≥ 41 and any call depth below the recursion
+    limit, so every calling context (direct, via `create`, via the digit spellings) reuses it;
+  * `voigt_source_rejects_strain_index`, `voigt_source_modulus_integer`: one-argument integers `n`.  The source spells `str(n)` and
+    calls itself on `int(c) for c in …`; Lemmas/VoigtSrcDigits proves the evaluator's `str(int)` is the decimal digit string, runs
+    the generator expression over a digit string of SYMBOLIC length by induction (one unit of fuel per character), and dispatches
+    on the number of digits.  Stated for `n < intBound = 10 ^ 1900`: the evaluator's fuel covers 1975 digits, beyond that it
+    answers `outOfFuel` (never an answer); CPython's own `str(int)` raises ValueError from 10 ^ 4300 on, which PyLite does not model.
+    Negative `n`: `e_` → RuntimeError (Voigt index), `c_` → ValueError (`int('-')`), as in CPython.
+  * `voigt_model_is_source_ints`: hand model = translated source for every one-, two- and four-integer spelling (the model's
+    `toString` digits are the evaluator's, Lemmas/VoigtSrcModelInts).
 -/
 import CijProofs.Lemmas.Voigt
 import CijProofs.Lemmas.VoigtSrc
@@ -351,36 +369,121 @@ theorem voigt_source_rejects_voigt (v : Int) (h : ¬(1 ≤ v ∧ v ≤ 6)) :
     excKind (srcFun "StrainRepresentation" "from_voigt" [.int v]) = some "RuntimeError" ∧ Strain.fromVoigt v = none :=
   ⟨src_from_voigt_rejects v h, c10_reject_strain_voigt v h⟩
 
-/-- `e_(v)` raises RuntimeError for every integer below 10 outside 1..6 (from 10 on the source spells the digits: decided domain) -/
-theorem voigt_source_rejects_strain_index_partial (v : Int) (h10 : v < 10) (h : ¬(1 ≤ v ∧ v ≤ 6)) :
-    excKind (srcCall "e_" [.int v]) = some "RuntimeError" := src_e1_rejects v h10 h
-
 /-- `c_(i, j)` raises RuntimeError for EVERY pair of integers not both in 1..6 — as the model rejects it -/
 theorem voigt_source_rejects_voigt_pair (i j : Int) (h : ¬((1 ≤ i ∧ i ≤ 6) ∧ (1 ≤ j ∧ j ≤ 6))) :
     excKind (srcCall "c_" [.int i, .int j]) = some "RuntimeError" ∧ Modulus.fromVoigt i j = none :=
   ⟨src_c2_rejects i j h, c10_reject_voigt i j h⟩
 
-/- Full statement: for ALL integers i j not both in 1..3, `e_(i, j)` raises RuntimeError.  Proved except when both indices are
-negative or both are ≥ 4: there `sorted((i, j))` compares two symbolic magnitudes, which kernel evaluation cannot decide (the
-decided domain 0..4 and the run against CPython cover instances). -/
-theorem voigt_source_rejects_standard_pair_partial (i j : Int) (h : ¬((1 ≤ i ∧ i ≤ 3) ∧ (1 ≤ j ∧ j ≤ 3)))
-    (hneg : ¬(i < 0 ∧ j < 0)) (hbig : ¬(4 ≤ i ∧ 4 ≤ j)) :
-    excKind (srcCall "e_" [.int i, .int j]) = some "RuntimeError" ∧ Strain.fromStandard i j = none :=
-  ⟨src_e2_rejects i j h hneg hbig, c10_reject_strain i j h⟩
+/-- `e_(i, j)` and `StrainRepresentation.from_standard(i, j)` raise RuntimeError for EVERY pair of integers not both in 1..3
+(no exclusions: `sorted((i, j))` on two symbolic magnitudes is handled by continuation extraction + `i ≤ j ∨ j < i`, Lemmas/VoigtSrcSort) -/
+theorem voigt_source_rejects_standard_pair (i j : Int) (h : ¬((1 ≤ i ∧ i ≤ 3) ∧ (1 ≤ j ∧ j ≤ 3))) :
+    excKind (srcCall "e_" [.int i, .int j]) = some "RuntimeError" ∧
+    excKind (srcFun "StrainRepresentation" "from_standard" [.int i, .int j]) = some "RuntimeError" ∧
+    Strain.fromStandard i j = none :=
+  ⟨(src_e2_all i j).1 (fun hin => h ((in3_iff i j).1 hin)), (src_fs_all i j).1 (fun hin => h ((in3_iff i j).1 hin)),
+   c10_reject_strain i j h⟩
 
-/- Full statement: for ALL integers i j k l not all in 1..3, `c_(i, j, k, l)` raises RuntimeError.  Same two exclusions per pair. -/
-theorem voigt_source_rejects_standard_partial (i j k l : Int)
-    (h : ¬((1 ≤ i ∧ i ≤ 3) ∧ (1 ≤ j ∧ j ≤ 3) ∧ (1 ≤ k ∧ k ≤ 3) ∧ (1 ≤ l ∧ l ≤ 3)))
-    (h1 : ¬(i < 0 ∧ j < 0)) (h2 : ¬(4 ≤ i ∧ 4 ≤ j)) (h3 : ¬(k < 0 ∧ l < 0)) (h4 : ¬(4 ≤ k ∧ 4 ≤ l)) :
-    excKind (srcCall "c_" [.int i, .int j, .int k, .int l]) = some "RuntimeError" ∧ Modulus.fromStandard i j k l = none :=
-  ⟨src_c4_rejects i j k l h h1 h2 h3 h4, c10_reject_standard i j k l h⟩
+/-- … and for EVERY pair in 1..3 both return the canonical strain `(min, max)` — sorted within the pair, for all integers at once -/
+theorem voigt_source_standard_pair_canonical (i j : Int) (h : (1 ≤ i ∧ i ≤ 3) ∧ (1 ≤ j ∧ j ≤ 3)) :
+    srcCall "e_" [.int i, .int j] = .ok (Strain.toVal ⟨min i j, max i j⟩) ∧
+    srcFun "StrainRepresentation" "from_standard" [.int i, .int j] = .ok (Strain.toVal ⟨min i j, max i j⟩) ∧
+    Strain.fromStandard i j = some ⟨min i j, max i j⟩ := by
+  have hin := (in3_iff i j).2 h
+  refine ⟨(src_e2_all i j).2 hin, (src_fs_all i j).2 hin, ?_⟩
+  rw [model_fromStandard' i j, if_pos hin]
+
+/-- `c_(i, j, k, l)` and `ModulusRepresentation.from_standard(i, j, k, l)` raise RuntimeError for EVERY quadruple of integers not all
+in 1..3 -/
+theorem voigt_source_rejects_standard (i j k l : Int)
+    (h : ¬((1 ≤ i ∧ i ≤ 3) ∧ (1 ≤ j ∧ j ≤ 3) ∧ (1 ≤ k ∧ k ≤ 3) ∧ (1 ≤ l ∧ l ≤ 3))) :
+    excKind (srcCall "c_" [.int i, .int j, .int k, .int l]) = some "RuntimeError" ∧
+    excKind (srcFun "ModulusRepresentation" "from_standard" [.int i, .int j, .int k, .int l]) = some "RuntimeError" ∧
+    Modulus.fromStandard i j k l = none := by
+  have hn : ¬(in3 i j ∧ in3 k l) := fun ⟨a, b⟩ => h ⟨((in3_iff i j).1 a).1, ((in3_iff i j).1 a).2, ((in3_iff k l).1 b).1, ((in3_iff k l).1 b).2⟩
+  exact ⟨src_c4_rejects i j k l hn, src_c4_direct_rejects i j k l hn, c10_reject_standard i j k l h⟩
+
+/-- **model = source for ALL integer spellings**, not only the decided domain: two and four positional integers without any bound;
+one integer `n` (the source spells `str(n)` and calls itself on the digits) for every `n < intBound = 10 ^ 1900`, negative ones
+included.  The bound is the evaluator's fuel (one unit per digit of `str(n)`; 1975 digits fit into `fuel.depth = 2000`); CPython's
+own `str(int)` refuses from 10 ^ 4300 on. -/
+theorem voigt_model_is_source_ints :
+    (∀ i j : Int, agreeWith valToStrain (e_ [.int i, .int j]) (Strain.create [.int i, .int j]) = true) ∧
+    (∀ i j : Int, agreeWith valToModulus (c_ [.int i, .int j]) (Modulus.create [.int i, .int j]) = true) ∧
+    (∀ i j k l : Int, agreeWith valToModulus (c_ [.int i, .int j, .int k, .int l])
+        (Modulus.create [.int i, .int j, .int k, .int l]) = true) ∧
+    (∀ n : Int, n < Int.ofNat intBound →
+        agreeWith valToStrain (e_ [.int n]) (Strain.create [.int n]) = true ∧
+        agreeWith valToModulus (c_ [.int n]) (Modulus.create [.int n]) = true) :=
+  ⟨agreeE_pair, agreeC_pair, agreeC_quad, fun n hn => ⟨agreeE_int n hn, agreeC_int n hn⟩⟩
+
+/-- `e_(v)` with one integer, every `v < intBound`: below 10 it is the Voigt index (RuntimeError outside 1..6, negative included);
+two digits `10 a + b` are the standard pair `(a, b)` (RuntimeError unless both in 1..3, the canonical strain otherwise); three or more
+digits are too many positional arguments for `create` — TypeError -/
+theorem voigt_source_rejects_strain_index (v : Int) :
+    (v < 10 → ¬(1 ≤ v ∧ v ≤ 6) → excKind (srcCall "e_" [.int v]) = some "RuntimeError") ∧
+    (∀ n : Nat, v = Int.ofNat n → 10 ≤ n → n < 100 →
+        (¬((1 ≤ n / 10 ∧ n / 10 ≤ 3) ∧ (1 ≤ n % 10 ∧ n % 10 ≤ 3)) → excKind (srcCall "e_" [.int v]) = some "RuntimeError") ∧
+        ((1 ≤ n / 10 ∧ n / 10 ≤ 3) ∧ (1 ≤ n % 10 ∧ n % 10 ≤ 3) →
+          srcCall "e_" [.int v] = .ok (Strain.toVal ⟨Int.ofNat (min (n / 10) (n % 10)), Int.ofNat (max (n / 10) (n % 10))⟩))) ∧
+    (∀ n : Nat, v = Int.ofNat n → 100 ≤ n → n < intBound → excKind (srcCall "e_" [.int v]) = some "TypeError") := by
+  refine ⟨src_e1_rejects v, ?_, ?_⟩
+  · rintro n rfl h1 h2
+    obtain ⟨r, a⟩ := src_e1_two n h1 h2
+    have hi : in3 (Int.ofNat (n / 10)) (Int.ofNat (n % 10)) ↔ (1 ≤ n / 10 ∧ n / 10 ≤ 3) ∧ (1 ≤ n % 10 ∧ n % 10 ≤ 3) := by
+      rw [in3_iff]
+      have e1 : (Int.ofNat (n / 10)) = ((n / 10 : Nat) : Int) := rfl
+      have e2 : (Int.ofNat (n % 10)) = ((n % 10 : Nat) : Int) := rfl
+      rw [e1, e2]; omega
+    refine ⟨fun hn => r (fun hin => hn (hi.1 hin)), fun hy => ?_⟩
+    rw [a (hi.2 hy)]
+    have e1 : (Int.ofNat (n / 10)) = ((n / 10 : Nat) : Int) := rfl
+    have e2 : (Int.ofNat (n % 10)) = ((n % 10 : Nat) : Int) := rfl
+    have m1 : min (Int.ofNat (n / 10)) (Int.ofNat (n % 10)) = Int.ofNat (min (n / 10) (n % 10)) := by
+      have : (Int.ofNat (min (n / 10) (n % 10))) = ((min (n / 10) (n % 10) : Nat) : Int) := rfl
+      rw [e1, e2, this]; omega
+    have m2 : max (Int.ofNat (n / 10)) (Int.ofNat (n % 10)) = Int.ofNat (max (n / 10) (n % 10)) := by
+      have : (Int.ofNat (max (n / 10) (n % 10))) = ((max (n / 10) (n % 10) : Nat) : Int) := rfl
+      rw [e1, e2, this]; omega
+    rw [m1, m2]
+  · rintro n rfl h1 hn
+    exact src_e1_many n h1 hn
+
+/-- `c_(v)` with one integer, every `v < intBound`: a negative one dies in `int('-')` (ValueError, as in CPython); one digit
+recurses for ever (`create(5)` → `create("5")` → `create(5)` …: RecursionError); two digits `10 a + b` are the Voigt pair `(a, b)`; three
+digits and five or more are "Invalid modulus representation" (RuntimeError); four digits are the standard tuple -/
+theorem voigt_source_modulus_integer (v : Int) :
+    (v < 0 → excKind (srcCall "c_" [.int v]) = some "ValueError") ∧
+    (∀ n : Nat, v = Int.ofNat n →
+      (n < 10 → excKind (srcCall "c_" [.int v]) = some "RecursionError") ∧
+      (10 ≤ n → n < 100 → agreeWith valToModulus (srcCall "c_" [.int v]) (Modulus.fromVoigt (Int.ofNat (n / 10)) (Int.ofNat (n % 10))) = true) ∧
+      (100 ≤ n → n < 1000 → excKind (srcCall "c_" [.int v]) = some "RuntimeError") ∧
+      (1000 ≤ n → n < 10000 → agreeWith valToModulus (srcCall "c_" [.int v])
+          (Modulus.fromStandard (Int.ofNat (n / 1000)) (Int.ofNat (n / 100 % 10)) (Int.ofNat (n / 10 % 10)) (Int.ofNat (n % 10))) = true) ∧
+      (10000 ≤ n → n < intBound → excKind (srcCall "c_" [.int v]) = some "RuntimeError")) := by
+  refine ⟨fun h => ?_, ?_⟩
+  · cases v with
+    | ofNat k => exact absurd h (by have : (Int.ofNat k) = (k : Int) := rfl; omega)
+    | negSucc a => exact c1_neg a
+  · rintro n rfl
+    refine ⟨src_c1_one n, src_c1_two n, src_c1_three n, fun h1 h2 => ?_, src_c1_many n⟩
+    obtain ⟨r, a⟩ := src_c1_four n h1 h2
+    by_cases hin : in3 (Int.ofNat (n / 1000)) (Int.ofNat (n / 100 % 10)) ∧ in3 (Int.ofNat (n / 10 % 10)) (Int.ofNat (n % 10))
+    · exact a hin
+    · rw [model_fromStandard4, if_neg hin]; exact agree_exc _ (r hin)
 
 /-- non-vacuity of the symbolic statements, and the messages on a few concrete instances -/
 example : isExcMsg (srcCall "c_" [.int 0, .int 3]) "RuntimeError" "Invalid voigt index 0" = true ∧
     isExcMsg (srcCall "c_" [.int 1, .int 1, .int 2, .int 4]) "RuntimeError" "Invalid standard index 24" = true ∧
     isExcMsg (srcCall "e_" [.int (-5), .int 2]) "RuntimeError" "Invalid standard index -52" = true ∧
     isExc (srcCall "c_" [.int 5]) "RecursionError" = true ∧ isExc (srcCall "c_" [.str (PyLite.codes "1a")]) "ValueError" = true ∧
-    isExc (srcCall "e_" [.int 123]) "TypeError" = true := by
+    isExc (srcCall "e_" [.int 123]) "TypeError" = true ∧
+    isExcMsg (srcCall "e_" [.int (-7), .int (-5)]) "RuntimeError" "Invalid standard index -7-5" = true ∧
+    isExcMsg (srcCall "e_" [.int 9, .int 5]) "RuntimeError" "Invalid standard index 59" = true ∧
+    isExc (srcCall "c_" [.int (-12)]) "ValueError" = true ∧ isExc (srcCall "c_" [.int 123456789012]) "RuntimeError" = true := by
+  decide +kernel
+
+/-- non-vacuity of the bound: twelve-digit integers are far below it -/
+example : (123456789012 : Int) < Int.ofNat intBound ∧ (10 : Nat) ^ 1899 < intBound := by
   decide +kernel
 
 end Source
